@@ -108,7 +108,34 @@ def units(dirs):
 
 
 def _np_dtype(name):
-    return {"int32": np.int32, "int64": np.int64, "float64": np.float64}[name]
+    return {"int32": np.int32, "int64": np.int64, "uint32": np.uint32, "float64": np.float64}[name]
+
+
+QUANTITIES = {"areaCell", "areaTriangle", "dvEdge", "dcEdge", "grid_area", "elementArea"}  # abstract tags: kept exact
+
+
+def is_f32(src):
+    return src.get("ftype") == "f32" or str(src.get("store", "")).endswith("f32")
+
+
+def apply_storage(ds, src):
+    """The storage knobs of the dialect, applied to a built dataset: coordinate arrays as float32 (ftype / store
+    '..f32'), and - for the routes whose index tables have one common type (ICON, ESMF) - the integer type."""
+    import xarray as xr
+
+    if is_f32(src):
+        for k in list(ds.variables):
+            v = ds[k]
+            if v.dtype == np.float64 and "cf_role" not in v.attrs and k not in QUANTITIES:
+                ds[k] = xr.DataArray(v.values.astype(np.float32), dims=v.dims, attrs=dict(v.attrs))
+    st = str(src.get("store", ""))
+    if src["route"] in ("icon", "esmf") and st[:3] in ("i32", "i64", "u32"):
+        it = {"i32": np.int32, "i64": np.int64, "u32": np.uint32}[st[:3]]
+        for k in list(ds.variables):
+            v = ds[k]
+            if v.dtype.kind in "iu" and v.dtype != it and v.ndim >= 1:
+                ds[k] = xr.DataArray(v.values.astype(it), dims=v.dims, attrs=dict(v.attrs))
+    return ds
 
 
 def _table(tbl, dtype, fill_map=None):
@@ -467,6 +494,8 @@ def _verts_input(case, mesh):
     arr = np.full(c.shape + (pts.shape[1],), float(FILL), dtype=float)
     ok = c != BIGFILL
     arr[ok] = pts[c[ok]]
+    if is_f32(src):
+        arr = arr.astype(np.float32)
     if src["single"]:
         arr = arr[0]
     if src["box"] == "list":
@@ -493,6 +522,8 @@ def _topology_kwargs(case, mesh):
     src = case["src"]
     box = src.get("box", "ndarray")
     lon, lat = lonlat(mesh["nodes"], "pm180")
+    if is_f32(src):
+        lon, lat = lon.astype(np.float32), lat.astype(np.float32)
     fv = None if src["fill_value"] == NOFILL else (FILL if src["fill_value"] == BIGFILL else src["fill_value"])
     kw = dict(
         node_lon=_boxed(lon, box),
@@ -568,11 +599,13 @@ def prepare(case, mesh, work, disk):
             "geos": _geos_ds,
             "icon": _icon_ds,
         }[route](case, mesh)
+        if route not in ("mpas", "mpas_dual"):  # mpas_dataset applies its own store
+            ds = apply_storage(ds, case["src"])
         if disk:
             path = base + ".nc"
             enc = _disk_encoding(ds)
             if route == "esmf" and case["d"].get("padv") == "m1":
-                enc["elementConn"] = {"_FillValue": np.int32(-1)}  # what ESMF's own writer declares
+                enc["elementConn"] = {"_FillValue": ds["elementConn"].dtype.type(-1)}  # what ESMF's own writer declares
             ds.to_netcdf(path, encoding=enc)
 
             def cleanup():
@@ -617,7 +650,7 @@ def prepare(case, mesh, work, disk):
 
 def case_tol(case):
     """Positions are matched to the precision the source stores them with."""
-    return 1e-6 if case["src"].get("store") == "u32f32" else TOL
+    return 1e-6 if is_f32(case["src"]) else TOL
 
 
 # ----------------------------------------------------------------------------- projection
